@@ -193,6 +193,9 @@ enum Op {
     SkipSeq(usize),
     /// the session is reset (connection lost and re-established) before segment i
     Reset(usize),
+    /// a data frame without any user data (LEN = 5, no transport octet) arrives before segment i:
+    /// it carries no segment and changes nothing
+    EmptyFrame(usize),
 }
 
 fn ops_for(n: usize) -> Vec<Op> {
@@ -219,7 +222,9 @@ fn ops_for(n: usize) -> Vec<Op> {
         if i >= 1 {
             v.push(Op::Reset(i));
         }
+        v.push(Op::EmptyFrame(i));
     }
+    v.push(Op::EmptyFrame(n));
     v.push(Op::ClearFir);
     v.push(Op::Overflow);
     v
@@ -245,6 +250,7 @@ fn apply(op: &Op, segs: &mut Vec<Segment>, rx: usize) {
         Op::BroadcastSeg(i) => Op::BroadcastSeg(at(*i)),
         Op::SkipSeq(i) => Op::SkipSeq(at(*i).min(segs.len())),
         Op::Reset(i) => Op::Reset(at(*i).min(segs.len())),
+        Op::EmptyFrame(i) => Op::EmptyFrame(at(*i).min(segs.len())),
         Op::Interleave(i) => Op::Interleave(at(*i).min(segs.len())),
         Op::ClearFir => Op::ClearFir,
         Op::Overflow => Op::Overflow,
@@ -317,6 +323,11 @@ fn apply(op: &Op, segs: &mut Vec<Segment>, rx: usize) {
             let at = (*i).min(segs.len());
             segs.insert(at, Segment { src: 0, dst: 0, broadcast: false, data: vec![] });
         }
+        Op::EmptyFrame(i) => {
+            // marker: an empty segment addressed to the station stands for the empty data frame
+            let at = (*i).min(segs.len());
+            segs.insert(at, Segment { src: PEER, dst: OWN, broadcast: false, data: vec![] });
+        }
         Op::SkipSeq(i) => {
             for s in segs.iter_mut().skip(*i).filter(|s| !s.data.is_empty()) {
                 let h = s.data[0];
@@ -384,6 +395,9 @@ impl CaseSpace for Mutations {
         let mut model = Reassembler::new(*rx);
         let mut expected = Vec::new();
         for s in &segs {
+            if s.data.is_empty() && s.dst == OWN {
+                continue; // a data frame without user data: no segment
+            }
             if s.data.is_empty() {
                 model.reset();
                 continue;
@@ -398,6 +412,10 @@ impl CaseSpace for Mutations {
         let mut out = Vec::new();
         let mut err = None;
         for s in &segs {
+            if s.data.is_empty() && s.dst == OWN {
+                stream.extend(encode(s));
+                continue;
+            }
             if s.data.is_empty() {
                 r.handle.push(&stream);
                 stream.clear();
